@@ -413,6 +413,12 @@ class Ctx:
     # -- steps -----------------------------------------------------------------------------
     def build_and_audit(self, extra_targets=None, need_cli=False, need_harness=True):
         prop_mod = "DoviModel.Props.%s" % self.prop
+        # translator part of the tie: regenerate the data-driven syntax tables from /repo's sources; the
+        # theorems of Props/SourceTie.lean (imported by Props/C01-C03) prove them identical to the model's tables
+        g = sh([sys.executable, os.path.join(VERIF, "tools", "gen_source_layouts.py"), "/repo"], cwd=VERIF, check=False, timeout=120)
+        if g.returncode != 0:
+            self.proof_failures.append({"what": "source translator: a Rust source file no longer has the shape the table extraction expects",
+                                        "output": (g.stdout + g.stderr)[-1500:]})
         ok, out = lake_build([prop_mod, "dovi_model"] + (extra_targets or []))
         if not ok:
             self.proof_failures.append({"what": "lake build failed", "module": prop_mod, "output": out[-3000:]})
